@@ -2,9 +2,11 @@
    (executioner.py cmd_epr, send_epr_half), as repaired by fixes/D16ii-epr-temporaries.diff: when anything fails before the
    hand-over is complete, the temporary qubits that exist are removed again (_clear_phys_qubit_in_memory), the physical id is
    released and the error is re-raised.  The decision function may_create / is_adjacent itself is modelled and translated in
-   Qasm/Topo.v (other builder); here `adj` is its result. *)
+   Qasm/Topo.v (other builder); here `adj` is its result.
+   Second half of the file: the same for ONE pair of a MEASURE-DIRECTLY request (cmd_epr_measure: both temporaries rotated into
+   their sampled bases, measured destructively, removed; md_records: the two entanglement-information records). *)
 From Coq Require Import List Bool Arith Lia.
-From SQ Require Import Base.ListUtil Stab.Tableau Net.Model Net.Refusal Net.Population Qasm.Exec.
+From SQ Require Import Base.ListUtil Stab.Tableau Net.Model Net.Refusal Net.Population Qasm.Exec Qasm.Epr.
 Import ListNotations.
 
 (* the three checks, in the order cmd_epr makes them, all before the first cmd_new *)
@@ -192,3 +194,120 @@ Proof. vm_compute. repeat split; reflexivity. Qed.
 Example ex_refused : epr_gate [0; 1] 0 0 true = false /\ epr_gate [0; 1] 0 2 true = false /\ epr_gate [0; 1] 0 1 false = false
   /\ epr_gate [0; 1] 0 1 true = true.
 Proof. vm_compute. auto. Qed.
+
+(* ---- measure-directly requests (create_request.type == RequestType.M) ------------------------------------------------------------
+   cmd_epr for ONE pair of a measure-directly request: the same three checks, the same two temporaries, H, CNOT; then
+   _measure_epr_qubit(qubit_id, remote=False) and _measure_epr_qubit(-(1+qubit_id), remote=True): rotate into the sampled basis
+   (Z: nothing, X: H, Y: K), cmd_measure(inplace=False), remove_qubit_id; then send_epr_outcome_half (netqasm_send_epr_half with
+   num = None: no native operation on a qubit; the record is appended to the peer's deque by TeardownNet.nstep_r).
+   Everything stands inside the same try block as for create-and-keep: any failure goes through epr_fail.
+   Inputs beyond cmd_epr_keep's: the two bases _sample_basis_choice returned (Epr.mbasis; rotations are 0, CHSH bases raise
+   NotImplementedError and are not modelled) and the coins c1, c2 of the two destructive measurements; `coins` are the coins
+   of the cleanup's measurements, used only when the request fails after a temporary exists. *)
+Definition basis_g1 (b : mbasis) : option g1 := match b with BZ => None | BX => Some NH | BY => Some NK end.
+
+(* _measure_epr_qubit: None = an exception (UnknownQubitError, a refused gate, outcome None) *)
+Definition measure_epr_qubit (s : qst) (p : pid) (b : mbasis) (coin : bool) : qst * option nat * ntrace :=
+  match virt_of (q_host s) p with
+  | None => (s, None, [])
+  | Some hd =>
+      let '(s1, bad, t1) := match basis_g1 b with
+                            | None => (s, false, [])
+                            | Some g => let '(s', r, t) := native s (OGate1 hd g) in (s', is_err r, t)
+                            end in
+      if bad then (s1, None, t1)
+      else
+        let '(s2, r, t2) := native s1 (OMeas hd false coin) in
+        match r with
+        | Ok v => (mkQ (q_net s2) (with_qlist (q_host s2) (premove p (h_qlist (q_host s2)))), Some v, t1 ++ t2)
+        | _ => (s2, None, t1 ++ t2)
+        end
+  end.
+
+Definition epr_fail_m (s : qst) (qid : nat) (coins : list bool) (tr : ntrace) : qst * qres * ntrace * option (nat * nat) :=
+  (epr_fail s qid coins tr, None).
+
+(* returns the new state, the result, the native calls, and (on success) the two outcomes: local qubit, remote qubit *)
+Definition cmd_epr_measure (i : nat) (s : qst) (known : list nat) (r : nat) (adj : bool) (qid : nat)
+  (bl br : mbasis) (c1 c2 : bool) (coins : list bool) : qst * qres * ntrace * option (nat * nat) :=
+  if negb (epr_gate known i r adj) then (s, RErr, [], None)
+  else
+    let '(s1, ok1, t1) := cmd_new i s (PP qid) in
+    if negb ok1 then epr_fail_m s1 qid coins t1 else
+    let '(s2, ok2, t2) := cmd_new i s1 (PM qid) in
+    if negb ok2 then epr_fail_m s2 qid coins (t1 ++ t2) else
+    match virt_of (q_host s2) (PP qid), virt_of (q_host s2) (PM qid) with
+    | Some h1, Some h2 =>
+        let '(s3, r3, t3) := native s2 (OGate1 h1 NH) in
+        let '(s4, r4, t4) := native s3 (OGate2 h1 h2 NCnot) in
+        let '(s5, o1, t5) := measure_epr_qubit s4 (PP qid) bl c1 in
+        match o1 with
+        | None => epr_fail_m s5 qid coins (t1 ++ t2 ++ t3 ++ t4 ++ t5)
+        | Some v1 =>
+            let '(s6, o2, t6) := measure_epr_qubit s5 (PM qid) br c2 in
+            match o2 with
+            | None => epr_fail_m s6 qid coins (t1 ++ t2 ++ t3 ++ t4 ++ t5 ++ t6)
+            | Some v2 => (s6, RDone None, t1 ++ t2 ++ t3 ++ t4 ++ t5 ++ t6, Some (v1, v2))
+            end
+        end
+    | _, _ => epr_fail_m s2 qid coins (t1 ++ t2)
+    end.
+
+(* the two entanglement-information records of a measure-directly pair (LinkLayerOKTypeM; type = OK_M, goodness = 1,
+   bell_state = PHI_PLUS are constants, create_id is not modelled): cmd_epr builds the creator's, send_epr_outcome_half the peer's *)
+Record mrec := mkMrec { m_outcome : nat; m_basis : mbasis; m_seq : nat; m_dir : nat; m_remote : nat; m_purpose : nat }.
+Definition md_records (i r lsock rsock seq : nat) (bl br : mbasis) (o : nat * nat) : mrec * mrec :=
+  (mkMrec (fst o) bl seq 0 r lsock,          (* ent_info: local outcome and basis, directionality 0, remote_node_id, purpose = epr_socket_id *)
+   mkMrec (snd o) br seq 1 i rsock).         (* remote_ent_info: remote outcome and basis, directionality 1, node_id, remote_epr_socket_id *)
+
+(* as long as nothing was measured the code path IS the create-and-keep one: refused by the checks or by a cmd_new *)
+Lemma measure_refused_as_keep i s known r adj qid bl br c1 c2 coins :
+  epr_gate known i r adj = false \/ snd (fst (cmd_new i s (PP qid))) = false \/
+  snd (fst (cmd_new i (fst (fst (cmd_new i s (PP qid)))) (PM qid))) = false ->
+  cmd_epr_measure i s known r adj qid bl br c1 c2 coins = (cmd_epr_keep i s known r adj qid coins, None).
+Proof.
+  unfold cmd_epr_measure, cmd_epr_keep, epr_fail_m. intros [G|[N1|N2]].
+  - rewrite G. reflexivity.
+  - destruct (negb (epr_gate known i r adj)); [reflexivity|].
+    destruct (cmd_new i s (PP qid)) as [[s1 ok1] t1]. cbn [fst snd] in N1. subst ok1. reflexivity.
+  - destruct (negb (epr_gate known i r adj)); [reflexivity|].
+    destruct (cmd_new i s (PP qid)) as [[s1 ok1] t1]. cbn [fst snd] in N2. destruct ok1; [|reflexivity]. cbn [negb].
+    destruct (cmd_new i s1 (PM qid)) as [[s2 ok2] t2]. cbn [fst snd] in N2. subst ok2. reflexivity.
+Qed.
+
+Lemma keep_refused_is_err i s known r adj qid coins :
+  epr_gate known i r adj = false \/ snd (fst (cmd_new i s (PP qid))) = false \/
+  snd (fst (cmd_new i (fst (fst (cmd_new i s (PP qid)))) (PM qid))) = false ->
+  snd (fst (cmd_epr_keep i s known r adj qid coins)) = RErr.
+Proof.
+  unfold cmd_epr_keep. intros [G|[N1|N2]].
+  - rewrite G. reflexivity.
+  - destruct (negb (epr_gate known i r adj)); [reflexivity|].
+    destruct (cmd_new i s (PP qid)) as [[s1 ok1] t1]. cbn [fst snd] in N1. subst ok1. apply epr_fail_res.
+  - destruct (negb (epr_gate known i r adj)); [reflexivity|].
+    destruct (cmd_new i s (PP qid)) as [[s1 ok1] t1]. cbn [fst snd] in N2. destruct ok1; [|apply epr_fail_res]. cbn [negb].
+    destruct (cmd_new i s1 (PM qid)) as [[s2 ok2] t2]. cbn [fst snd] in N2. subst ok2. apply epr_fail_res.
+Qed.
+
+Theorem refused_measure_creates_nothing i s known r adj qid bl br c1 c2 coins :
+  epr_gate known i r adj = false -> cmd_epr_measure i s known r adj qid bl br c1 c2 coins = (s, RErr, [], None).
+Proof. intro H. unfold cmd_epr_measure. rewrite H. reflexivity. Qed.
+
+(* non-vacuity: a successful measure-directly pair (sampled bases X, Y; coins 1, 0) -- the complete native trace, the outcomes,
+   host and node exactly as before; and one refused at the second cmd_new (room for one more qubit only): the first temporary
+   is removed again, as for create-and-keep *)
+Example ex_measure_ok :
+  let c := cmd_epr_measure 0 ok_start [0; 1] 1 true 0 BX BY true false [] in
+  snd (fst (fst c)) = RDone None /\
+  snd (fst c) = [(ONew 0, Ok 0); (ONew 0, Ok 1); (OGate1 0 NH, OkNone); (OGate2 0 1 NCnot, OkNone); (OGate1 0 NH, OkNone);
+                 (OMeas 0 false true, Ok 1); (OGate1 1 NK, OkNone); (OMeas 1 false false, Ok 0)] /\
+  snd c = Some (1, 0) /\ md_outcomes BX BY true false = (true, false) /\
+  q_host (fst (fst (fst c))) = q_host ok_start /\ node_counts (fst (fst (fst c))) 0 = (0, 0, 0, 0) /\
+  md_records 0 1 2 3 7 BX BY (1, 0) = (mkMrec 1 BX 7 0 1 2, mkMrec 0 BY 7 1 0 3).
+Proof. vm_compute. repeat split; reflexivity. Qed.
+Example ex_measure_refused_second_new :
+  let c := cmd_epr_measure 0 tight_start [0; 1] 1 true 1 BX BY true false [false] in
+  snd (fst (fst c)) = RErr /\ snd c = None /\
+  snd (fst c) = [(ONew 0, Ok 1); (ONew 0, Err KNoQubit); (OMeas 1 false false, Ok 0)] /\
+  q_host (fst (fst (fst c))) = q_host tight_start /\ node_counts (fst (fst (fst c))) 0 = node_counts tight_start 0.
+Proof. vm_compute. repeat split; reflexivity. Qed.
